@@ -4,7 +4,9 @@ from harness import impl, decl
 from harness.core import run_driver
 
 HANDLERS = [(0, '_parse_extern', 'extern'), (1, '_parse_inline', 'inline'), (2, '_parse_friend_decl', 'friend'),
-            (3, '_parse_typedef', 'typedef'), (4, '_consume_static_assert', 'static_assert')]
+            (3, '_parse_typedef', 'typedef'), (4, '_consume_static_assert', 'static_assert'), (5, '_consume_attribute', 'attribute'),
+            (6, '_consume_gcc_attribute', '__attribute__'), (7, '_consume_declspec', '__declspec')]
+ATTR_KW = ['__attribute__', '__declspec', '[[', 'alignas', 'int']
 WORDS = ['"C"', '"C++"', '{', '}', 'template', 'namespace', 'class', 'struct', 'int', 'x', ';', '(', ')', '(', ')', 'Foo', '<', '>', 'inline', 'static',
          '1', ',', '"msg"', '[', ']', '*', 'n']
 
@@ -31,9 +33,10 @@ def real_handler(meth, in_class, kw, strs):
             got.append((name, tuple(show(x) for x in a), tuple(sorted((kk, show(vv)) for kk, vv in k.items())), len(p.lex.tokbuf)))
             raise Stop()
         return f
-    p._parse_declarations = rec('decl')
-    p._parse_template_instantiation = rec('inst')
-    p._parse_namespace = rec('ns')
+    for attr, nm_ in (('_parse_declarations', 'decl'), ('_parse_template_instantiation', 'inst'), ('_parse_namespace', 'ns'),
+                      ('_consume_gcc_attribute', 'gccattr'), ('_consume_declspec', 'declspec'), ('_consume_attribute_specifier_seq', 'attrseq')):
+        if attr != meth:
+            setattr(p, attr, rec(nm_))
     if in_class:
         cd = T.ClassDecl(T.PQName([T.NameSpecifier('S')], classkey='struct'))
         p.state = PS.ClassBlockState(p.state, impl.L.Location("<list>", 1), cd, 'public', False, PS.ParsedTypeModifiers({}, {}, {}))
@@ -43,6 +46,8 @@ def real_handler(meth, in_class, kw, strs):
     try:
         if meth == '_parse_friend_decl':
             p._parse_friend_decl(ktok, None, tmpl)
+        elif meth == '_consume_attribute':
+            p._consume_attribute(ktok)
         else:
             getattr(p, meth)(ktok, None)
     except Stop:
@@ -67,18 +72,20 @@ def correspond_dispatch(ctx, corr, only=None):
     handlers = [x for x in HANDLERS if only is None or x[2] in only]
     for _ in range(ctx.scale(900, 18000)):
         h, meth, kw = rng.choice(handlers)
+        if kw == 'attribute':
+            kw = rng.choice(ATTR_KW)
         n = rng.choice([0, 1, 2, 3, 5, 8])
         toks = [rng.choice(WORDS) for _ in range(n)]
         if rng.random() < 0.5:
             # shapes the handlers look for
-            toks = rng.choice([['"C"', '{'], ['"C"'], ['template', 'class'], ['namespace', 'n', '{'], ['('] + toks + [')'], ['(', '(', ')', '[', ')', ']', ')'], []]) + toks
+            toks = rng.choice([['"C"', '{'], ['"C"'], ['template', 'class'], ['namespace', 'n', '{'], ['('] + toks + [')'], ['(', '(', ')', '[', ')', ']', ')'], [], ['(', '(', 'x', '(', '1', ')', ')', ')'], ['(', 'align', '(', '8', ')', ')'], ['(', '(', ')']]) + toks
         cases.append((h, meth, kw, rng.random() < 0.35, toks))
     lines, nms = [], []
     for h, meth, kw, ic, toks in cases:
         names = decl.Names()
         lines.append([111, h, int(ic)] + decl.enc_tokens([kw], names) + decl.enc_tokens(toks, names))
         nms.append(names)
-    CALLEE = {0: 'decl', 1: 'inst', 2: 'ns'}
+    CALLEE = {0: 'decl', 1: 'inst', 2: 'ns', 3: 'gccattr', 4: 'declspec', 5: 'attrseq'}
     KW = {1: 'is_typedef', 2: 'is_friend', 3: 'inline'}
     for (h, meth, kw, ic, toks), o, names in zip(cases, run_driver(lines), nms):
         corr.cases += 1
@@ -110,9 +117,9 @@ def correspond_dispatch(ctx, corr, only=None):
         elif o[0] == 2:
             m = ('done', o[1])
         else:
-            m = ('err',) if o[1] in (1, 2) else (('untranslated', o[1]) if o[1] == 9 else ('internal', o[1]))
+            m = ('err',) if o[1] in (1, 2, 3) else (('untranslated', o[1]) if o[1] == 9 else ('internal', o[1]))
         r = real_handler(meth, ic, kw, toks)
-        key = "dispatch:%s:%s/%s" % (kw, m[0], r[0])
+        key = "dispatch:%s:%s/%s" % (meth, m[0], r[0])
         corr.dist[key] = corr.dist.get(key, 0) + 1
         if r[0] != 'other' and m != r:
             corr.disagreements.append(dict(case=dict(kind='corr-dispatch', handler=meth, in_class=ic, tokens=toks), model=str(m)[:300], impl=str(r)[:300],
